@@ -80,14 +80,16 @@ class Steps:
         self.n = 0
         self.at = None
         self.mode = None
+        self.fired = None
         self.log = []
 
-    def hit(self, what):
+    def hit(self, what, exc=None):
         self.n += 1
         self.log.append(what)
         if self.at is not None and self.n == self.at:
             self.at = None
-            raise (sqlite3.OperationalError('injected: disk I/O error') if what.startswith('sql') else OSError('injected: I/O error'))
+            self.fired = what
+            raise exc or (sqlite3.OperationalError('injected: disk I/O error') if what.startswith('sql') else OSError('injected: I/O error'))
 
 
 class ConnProxy:
@@ -105,6 +107,24 @@ class ConnProxy:
 
     def __getattr__(self, item):
         return getattr(self._c, item)
+
+
+class OsProxy:
+    """stands in for the `os` module inside tpm_file: removing a file is a storage step that can fail"""
+
+    def __init__(self, steps):
+        self._s = steps
+
+    def remove(self, path):
+        self._s.hit('os:remove', PermissionError(13, 'injected: permission denied'))
+        return os.remove(path)
+
+    def unlink(self, path):
+        self._s.hit('os:remove', PermissionError(13, 'injected: permission denied'))
+        return os.unlink(path)
+
+    def __getattr__(self, item):
+        return getattr(os, item)
 
 
 class FaultTpm(TpmFile):
@@ -136,6 +156,8 @@ class World:
         self.tpmdir = os.path.join(self.dir, 'ndnsec-key-file')
         self.steps = Steps()
         self.old = (ndn_utils.time, tpm_file_mod.RSA, tpm_file_mod.ECC)
+        self.old_os = tpm_file_mod.os
+        tpm_file_mod.os = OsProxy(self.steps)
         ndn_utils.time = Clock()
         tpm_file_mod.RSA = KeyPool(RSA, ['rsa2048_0', 'rsa2048_1', 'rsa2048_2', 'rsa2048_3'])
         tpm_file_mod.ECC = KeyPool(ECC, ['ec256_0', 'ec256_1', 'ec256_2', 'ec256_3', 'ec256_4', 'ec256_5'])
@@ -176,6 +198,7 @@ class World:
             self.now.__exit__(None, None, None)
             self.rnd.__exit__(None, None, None)
             ndn_utils.time, tpm_file_mod.RSA, tpm_file_mod.ECC = self.old
+            tpm_file_mod.os = self.old_os
             shutil.rmtree(self.dir, ignore_errors=True)
 
     # -- independent view of the persistent state ----------------------------------------------------------
@@ -639,6 +662,14 @@ class World:
         return [(s, w + f'; after op {op}') for s, w in viol]
 
     # -- postconditions used after an injected fault ----------------------------------------------------------------
+    def note_deleted(self, before):
+        """keys that existed before the (failed / repeated) operation and are gone from the store now count as deleted"""
+        now = {k for v in self.ref.values() for k in v['keys']}
+        for k, certs in before['allkeys'].items():
+            if k not in now:
+                self.deleted_keys.add(k)
+                self.deleted_certs.setdefault(k, list(certs))
+
     def postcondition(self, op, before):
         """holds on the actual store after the operation finally succeeded (reference re-synchronised from the store)"""
         kind = op[0]
@@ -731,7 +762,8 @@ def run_fault(hist, mode):
             for op in hist[:-1]:
                 w.apply(op, check=False)
             applicable, call = w.perform(last)
-            before = {'ids': set(w.ref), 'nkeys': {i: len(v['keys']) for i, v in w.ref.items()}, 'target': None}
+            before = {'ids': set(w.ref), 'nkeys': {i: len(v['keys']) for i, v in w.ref.items()}, 'target': None,
+                      'allkeys': {k: list(kv['certs']) for v in w.ref.values() for k, kv in v['keys'].items()}}
             if last[0] in ('delkey', 'delkey2', 'defkey'):
                 before['target'] = w.key_of(last[1], last[2])
             if last[0] in ('delcert', 'delcert2', 'defcert'):
@@ -739,15 +771,36 @@ def run_fault(hist, mode):
             w.steps.n = 0
             w.steps.at = k
             where = None
+            w.steps.fired = None
+            swallowed = False
             try:
                 call()
-                continue            # the injected step was not reached (non-deterministic step count would be a harness bug)
+                if w.steps.fired is None:
+                    continue        # the injected step was not reached (non-deterministic step count would be a harness bug)
+                # the storage failure happened but the operation reported success: it must then have completed its work
+                swallowed = True
+                where = w.steps.fired
             except (sqlite3.OperationalError, OSError) as e:
                 where = w.steps.log[-1] if w.steps.log else '?'
             except Exception as e:  # noqa
                 viol.append((f'C15|fault|{last[0]}|first-attempt-raises:{type(e).__name__}@{tb_where(e)}', f'{e!r}; history {hist} step {k}'))
                 continue
             w.steps.at = None
+            if swallowed:
+                w.resync()
+                w.note_deleted(before)
+                msg = w.postcondition(last, before)
+                if msg:
+                    viol.append((f'C15|fault|swallowed|{last[0]}|postcondition',
+                                 f'{msg}; a storage failure at step {k} ({where}) was not reported and the operation returned normally; history {hist}'))
+                sub = []
+                w.check_state(sub, strict_ref=False)
+                if not sub:
+                    w.check_all_signers(sub)
+                for s_, x in sub:
+                    viol.append((s_.replace('C15|', f'C15|fault|swallowed|{last[0]}|', 1),
+                                 x + f'; unreported storage failure at step {k} ({where}); history {hist}'))
+                continue
             if mode == 'crash':
                 w.crash()
             else:
@@ -772,6 +825,7 @@ def run_fault(hist, mode):
                                  f'repeating {last} after a failure at step {k} ({where}) raised {e!r}; history {hist}'))
                     continue
             w.resync()
+            w.note_deleted(before)
             msg = w.postcondition(last, before)
             if msg:
                 viol.append((f'C15|fault|{mode}|{last[0]}|postcondition', f'{msg}; failure at step {k} ({where}); history {hist}'))
